@@ -11,6 +11,7 @@ func init() { register("C01", checkC01) }
 
 func checkC01(cx *Ctx, r *Report) {
 	w, fx := cx.W, cx.Fx
+	cx.checkFailedResponsesFresh(r)
 	cx.checkRecoverReports(r, cx.handlerScope())
 	// storage is asked with the request's context (which carries the issuer / tenant in effect): keys, providers and
 	// users are those of this request
